@@ -8,8 +8,13 @@
    Conventions of the translation (see the translator's docstring):
    * Python ints are naturals; a subtraction is accepted by the translator only
      where a dominating test shows the value is positive.
-   * Python lists are Coq lists; copy.copy is the identity; `l[i] = x` on a
-     fresh local copy is [set_nth]; `l.append(x)` is [append].
+   * Python lists are Coq lists; copy.copy / list() / .copy() / [:] is the
+     identity; `l[i] = x` on a fresh local copy is [set_nth]; `l.append(x)` is
+     [append]; a list comprehension is [map] (over [filter]).
+   * A call of another method of the class is inlined: its body, translated in
+     place, with the parameters let-bound to the arguments.
+   * The undefined values are explicit first parameters of every generated
+     function (which ones: fixed per function by the translator).
    * An exception (IndexError / KeyError of a subscript) is not modelled: the
      subscript [sub d l i] is total, [d] being an arbitrary "undefined" value
      the generated section is parameterised by.  The equalities with the
